@@ -55,3 +55,36 @@ Theorem C07_table_setting_words :
   = [s2l "note:"; s2l "headercolor:"].
 Proof. exact table_setting_keywords. Qed.
 Print Assumptions C07_table_setting_words.
+
+(* ---- a stray character at the very beginning: rejected whatever follows ---- *)
+(* proofs/FirstChar.v: [look] is a first-character analysis of grammar expressions (cannot succeed / can only succeed without
+   consuming / unknown), proved sound against the interpreter PP.run for every fuel, input, option and parse-action table
+   ([look_sound], by induction on the fuel through every combinator: And, MatchFirst, Or with its trial pass and longest-match
+   loop, ZeroOrMore / OneOrMore, Optional, Combine, Suppress, Group, Forward, originalTextFor, NotAny, FollowedBy, and the 13
+   terminals).  Evaluated on the regenerated grammar of either option it leaves only  /  E N P R T  e n p r t  undecided. *)
+From PyDBML Require Import FirstChar.
+Theorem C07_first_character_analysis_is_sound :
+  forall env act src c f k doact e p cp, at_c c p -> sem (look env c k e) p (run env act src f doact e p cp).
+Proof. intros. apply look_sound. assumption. Qed.
+Print Assumptions C07_first_character_analysis_is_sound.
+
+Theorem C07_document_beginning_with_a_stray_character_is_rejected :
+  forall (c : ch) (rest : pystr) allow sq dq h h' d,
+    In c printable -> ~ In c may_begin -> parser_parse (c :: rest) allow sq dq h <> (h', Ok d).
+Proof. exact stray_first_character_rejected. Qed.
+Print Assumptions C07_document_beginning_with_a_stray_character_is_rejected.
+
+Theorem C07_stray_character_example : In 64%N printable /\ ~ In 64%N may_begin /\ first_ok false 84%N = true.
+Proof. exact stray_example. Qed.
+Print Assumptions C07_stray_character_example.
+
+(* ... and for EVERY character: the analysis looks at the character only through finitely many membership tests read off the
+   grammar (proofs/FirstCharAll.v: [mentioned], 86 distinct characters for the regenerated grammar); two characters outside all of them
+   get the same verdict ([look_generic]); the 86 are decided by computation and one generic character decides all the others.
+   A document whose first character is none of  / E N P R T e n p r t  and not blank (LF, space, CR, TAB) is rejected. *)
+From PyDBML Require Import FirstCharAll.
+Theorem C07_document_beginning_with_any_stray_character_is_rejected :
+  forall (c : ch) (rest : pystr) allow sq dq h h' d,
+    ~ In c may_begin_or_blank -> parser_parse (c :: rest) allow sq dq h <> (h', Ok d).
+Proof. exact any_stray_first_character_rejected. Qed.
+Print Assumptions C07_document_beginning_with_any_stray_character_is_rejected.
